@@ -328,3 +328,128 @@ def run(chk):
     _progress_rule(chk, prog, cg)
     _wstatus_rule(chk, prog)
     _dispatch_rule(chk, prog)
+    _solewaiter_rule(chk, prog)
+    _closeboth_rule(chk, prog)
+    _procclose_rule(chk, prog)
+
+
+def _solewaiter_rule(chk, prog):
+    """A stream remembers ONE fiber per direction (read_fiber / write_fiber); readiness and close events go to that
+    fiber only.  Storing a second fiber over one that is still waiting cuts the first one off from every event: it stays
+    suspended for ever.  So the registration may overwrite the field only after looking at what is in it."""
+    rule = "C16-SOLEWAITER"
+    chk.rule(rule, "a fiber is registered as a stream's reader / writer only on paths that have examined the fiber already registered there")
+    n = 0
+    for fn in prog.all_funcs():
+        stores = [x for x in fn.nodes if x.k == "asg" and x.op == "=" and x.kids[0].k == "mem" and x.kids[0].rec == "JanetStream"
+                  and x.kids[0].field in ("read_fiber", "write_fiber") and strip_casts(x.kids[1]).v != 0]
+        if not stores:
+            continue
+        chk.analysed(fn)
+        IN, T = flow.condition_facts(fn)
+        helpers = {}
+        for x, S in flow.states_at(fn, IN, T):
+            if x not in stores:
+                continue
+            n += 1
+            chk.instance(rule)
+            fld = x.kids[0].field
+            ok = bool(S)
+            for ps in S:
+                good = False
+                for (op, l, r, toks, ln, rn) in ps:
+                    for side in (ln, rn):
+                        if side is not None and any(y.k == "mem" and y.field == fld and y.rec == "JanetStream" for y in side.walk()):
+                            good = True
+                if not good:
+                    ok = False
+            if ok:
+                chk.ok(rule, "%s: `%s` only after the current %s was examined" % (fn.name, x.text()[:40], fld))
+            else:
+                chk.violation(rule, fn.tu.name, fn.name, "overwrite:%s" % fld, x.loc,
+                              "`%s` replaces the stream's %s without having looked at it on some path: if another fiber is parked there "
+                              "it no longer receives any event for this stream and stays suspended for ever (two fibers reading, or two "
+                              "writing under back-pressure, on one stream)" % (x.text()[:40], fld))
+    chk.floor(rule, 2, n)
+
+
+def _closeboth_rule(chk, prog):
+    """janet_stream_close tells the parked reader and the parked writer that the stream is gone.  They are independent:
+    whether the writer is told must not depend on whether there was a reader."""
+    rule = "C16-CLOSEBOTH"
+    chk.rule(rule, "closing a stream notifies its pending reader and its pending writer independently of each other")
+    fn = prog.need_func("janet_stream_close", "ev.c")
+    chk.analysed(fn)
+    alias = {}
+    for x in fn.nodes:
+        if x.k == "vardecl" and x.kids and strip_casts(x.kids[0]).k == "mem" and strip_casts(x.kids[0]).field in ("read_fiber", "write_fiber"):
+            alias[x.name] = strip_casts(x.kids[0]).field
+    calls = []
+    for x in fn.nodes:
+        if x.k == "call" and x.callee is None and x.args:
+            a0 = strip_casts(x.args[0])
+            side = alias.get(a0.name) if is_ref(a0) else (a0.field if a0.k == "mem" else None)
+            if side in ("read_fiber", "write_fiber"):
+                calls.append((x, side))
+    if len(calls) < 2:
+        raise AnalysisBroken("janet_stream_close: the two close notifications were not recognised (%d)" % len(calls))
+    for x, side in calls:
+        chk.instance(rule)
+        other = "write_fiber" if side == "read_fiber" else "read_fiber"
+        dep = None
+        p_ = x.parent
+        child = x
+        while p_ is not None:
+            if p_.k == "if" and p_.kids and p_.kids[0] is not None and child is not p_.kids[0]:
+                for y in p_.kids[0].walk():
+                    if (y.k == "mem" and y.field == other) or (is_ref(y) and alias.get(y.name) == other):
+                        dep = p_
+            child, p_ = p_, p_.parent
+        if dep is None:
+            chk.ok(rule, "janet_stream_close: the %s is notified whatever the other side is" % side)
+        else:
+            chk.violation(rule, "ev.c", fn.name, "notify:%s" % side, x.loc,
+                          "the close notification of the %s is nested under a test of the %s (%s): when both a reader and a writer are "
+                          "parked on the stream, one of them is never told and stays suspended on a closed descriptor" % (side, other, dep.loc))
+
+
+def _procclose_rule(chk, prog):
+    """os/proc-close hands back the pipes to the child before anything else: a child reading its stdin to the end only
+    exits once that pipe is closed, and whoever waits for the process (this call or an earlier os/proc-wait) depends on it."""
+    rule = "C16-PROCCLOSE"
+    chk.rule(rule, "os/proc-close gives up the process's pipes on every path before it returns")
+    fn = next((f for f in prog.all_funcs() if f.name == "os_proc_close"), None)
+    if fn is None:
+        raise AnalysisBroken("os_proc_close not found")
+    chk.analysed(fn)
+
+    def transfer(st, x):
+        # proc->flags &= ~(OWNS_STDIN | OWNS_STDOUT | OWNS_STDERR): the pipes have been dealt with
+        if x.k == "asg" and x.op == "&=" and x.kids[0].k == "mem" and x.kids[0].field == "flags" and \
+                any("OWNS_STD" in m for y in x.kids[1].walk() for m in y.macro_names()):
+            return st | frozenset(["released"])
+        return st
+    IN, OUT = flow.forward(fn, frozenset(), transfer, lambda a, b: a & b)
+    n = 0
+    for x, st in flow.states_at(fn, IN, transfer):
+        if x.k == "return":
+            n += 1
+            chk.instance(rule)
+            if "released" in st:
+                chk.ok(rule, "os_proc_close: return at %s after the pipes were given up" % x.loc)
+            else:
+                chk.violation(rule, fn.tu.name, fn.name, "return-before-release", x.loc,
+                              "`%s` leaves os/proc-close on a path that has not closed the pipes it owns and cleared the OWNS flags: a child "
+                              "reading its input to the end never sees end of file, never exits, and the fiber waiting for it hangs" % x.text()[:40])
+    # the final wait (os_proc_wait_impl: suspends or returns the status) must come after the release as well
+    for x, st in flow.states_at(fn, IN, transfer):
+        if x.k == "call" and x.callee == "os_proc_wait_impl":
+            n += 1
+            chk.instance(rule)
+            if "released" in st:
+                chk.ok(rule, "os_proc_close: waits for the process after the pipes were given up")
+            else:
+                chk.violation(rule, fn.tu.name, fn.name, "wait-before-release", x.loc,
+                              "os/proc-close starts waiting for the process before it has closed the pipes it owns")
+    if n < 2:
+        raise AnalysisBroken("os_proc_close: exits not recognised (%d)" % n)
